@@ -281,6 +281,7 @@ func (c *Cluster) opReFastForward(s *Step) {
 	}
 	// pending pool content would be lost for the ledger's purposes only if the node drops it; it does not
 	c.stats.probe("re-fast-forward")
+	a.blocksBeforeFF = a.node.GetLastBlockIndex()
 	a.node.SimTransition(_state.CatchingUp)
 	err := a.node.SimFastForward()
 	c.onFastForwardDone(a, err)
